@@ -77,10 +77,15 @@ class CrystalMapProperties(dict):
             array_shape = (self.is_in_data.size,)
 
         # Get array values if `key` already present, or zeros
+        is_new = key not in self
         array = self.setdefault(key, np.zeros(array_shape))
 
-        # Set correct data type
-        array = array.astype(value.dtype)
+        # Set correct data type: that of the value for a new array, a
+        # common type otherwise (points not in the data keep their values)
+        if is_new:
+            array = array.astype(value.dtype)
+        else:
+            array = array.astype(np.result_type(array.dtype, value.dtype))
 
         array[self.is_in_data, ...] = value
         super().__setitem__(key, array)
